@@ -1272,10 +1272,10 @@ func normalize(c Case) Case {
 		}
 		// mixing Write+ReadFrom / Read+WriteTo on one object is only exercised on
 		// the library's own xerial implementation, which is written for it
-		if c.Codec.Name != "snappy" || s.W.Pre < 0 || s.W.Mode != "readfrom" {
+		if s.W.Pre < 0 || s.W.Mode != "readfrom" {
 			s.W.Pre = 0
 		}
-		if c.Codec.Name != "snappy" || s.W.Post < 0 || s.W.Mode != "readfrom" {
+		if s.W.Post < 0 || s.W.Mode != "readfrom" {
 			s.W.Post = 0
 		}
 		if s.W.Pre >= s.Payload.Len {
@@ -1658,10 +1658,10 @@ func genStream(t *rapid.T, label string, cs CodecSpec, huge bool) Stream {
 		s.W.Mode = "readfrom"
 		s.W.SrcChunk = rapid.SampledFrom([]int{0, 1, 7, 1000, 4096, 31745, 40000}).Draw(t, label+"_wsrc")
 		s.W.SrcEOF = rapid.Bool().Draw(t, label+"_wsrceof")
-		if cs.Name == "snappy" && rapid.Bool().Draw(t, label+"_wpre?") {
+		if rapid.Bool().Draw(t, label+"_wpre?") {
 			s.W.Pre = rapid.SampledFrom([]int{1, 100, 31744, 31745, 40000}).Draw(t, label+"_wpre")
 		}
-		if cs.Name == "snappy" && rapid.IntRange(0, 2).Draw(t, label+"_wpost?") == 0 {
+		if rapid.IntRange(0, 2).Draw(t, label+"_wpost?") == 0 {
 			s.W.Post = rapid.SampledFrom([]int{1, 100, 31745, 40000}).Draw(t, label+"_wpost")
 		}
 	}
